@@ -280,11 +280,13 @@ static void do_pass2(void)
     for (j = 0; j < bound; j++) printf("%s%ld", j ? "," : "", elem(j));
     for (t = 0; t < n_forked; t++) if (!t_done[t]) stray++;
     if (stray) printf(" STRAY=%d", stray);
+    printf("\n");
+    fflush(stdout);
+    /* let threads the parent did not wait for run to their end (their args and the wall words are gone by now) */
     cur_fl = cur_fr = NULL;
     aborting = 1;
     for (t = 0; t < n_forked; t++) if (!t_done[t]) sem_post(&sem_thr[t]);
     for (t = 0; t < n_forked; t++) pthread_join(forked[t].th, NULL);
-    printf("\n");
     c13p_baton = 0; snapshot = NULL;
 }
 
@@ -348,9 +350,9 @@ int main(void)
     static char line[4 * 1024 * 1024];
 
     setvbuf(stdout, NULL, _IOLBF, 0);
-    alarm(600);
     while (fgets(line, sizeof(line), stdin)) {
         if (line[0] == 'Q') break;
+        alarm(90);          /* per command: a partition thread that never reaches its next yield point */
         if (!strncmp(line, "pass", 4)) {
             if (parse(line, 1)) { printf("p error parse\n"); continue; }
             do_pass2();
